@@ -48,6 +48,16 @@ inductive Val where
   | resource (id : Nat)
   deriving Repr, DecidableEq
 
+/-- one field of a big-endian `struct` format: `<n>s` (n raw bytes) or an unsigned integer of n bytes (B, H, I) -/
+inductive Fld where
+  | raw (n : Nat)
+  | uint (n : Nat)
+  deriving Repr, DecidableEq
+
+def fldSize : Fld → Nat
+  | .raw n => n
+  | .uint n => n
+
 inductive Expr where
   | lit (v : Val)
   | var (x : String)
@@ -73,6 +83,14 @@ inductive Expr where
   | fromBytesBig (e : Expr)         -- int.from_bytes(e, "big")
   | bitand (a b : Expr)             -- a & b on non-negative ints
   | emptyDict                       -- {}
+  | bytesLit (b : Bytes)            -- b"..." (also a module-level bytes constant)
+  | eqB (a b : Expr)                -- a == b on bytes
+  | neB (a b : Expr)                -- a != b on bytes
+  | or (a b : Expr)
+  | le (a b : Expr)                 -- a <= b on ints  (a >= b is written le b a)
+  | maxSize                         -- config.MAX_MESSAGE_SIZE
+  | isNone (e : Expr)               -- e is None
+  | startsWith (e p : Expr)         -- e.startswith(p) on bytes
   deriving Repr
 
 inductive Stmt where
@@ -106,6 +124,9 @@ inductive Stmt where
   | clearColl (x : String)                        -- x.clear()
   | sockShutdown                                  -- self.sock.shutdown(socket.SHUT_RDWR)   (may raise)
   | sockClose                                     -- self.sock.close()   (may raise)
+  | unpackInto (targets : List String) (fmt : List Fld) (e : Expr)
+                                                  -- t1, t2, ... = struct.unpack(fmt, e)   ("_" = discarded)
+  | unsupported (what : String)                   -- a statement outside the fragment: running it is `stuck`
   deriving Repr
 
 /-- what the running program can see of its surroundings -/
@@ -116,6 +137,7 @@ structure Cfg where
   isSub : Cls → Cls → Bool          -- issubclass, as extracted from the real classes
   unzip : Bytes → Option Bytes := fun _ => none   -- zlib.decompress (none = zlib.error)
   closeRaises : Nat → Bool := fun _ => false      -- which resources' close() raises (and the two socket marks)
+  maxSize : Nat := 0                              -- config.MAX_MESSAGE_SIZE
 
 structure World where
   stream : Bytes                    -- what the peer will still send
@@ -209,6 +231,29 @@ def eval (cfg : Cfg) (env : Env) : Expr → Option Val
     | some (.int x), some (.int y) => if 0 ≤ x ∧ 0 ≤ y then some (.int (x.toNat &&& y.toNat : Nat)) else none
     | _, _ => none
   | .emptyDict => some (.dict [])
+  | .bytesLit b => some (.bytes b)
+  | .eqB a b => match eval cfg env a, eval cfg env b with
+    | some (.bytes x), some (.bytes y) => some (.bool (x == y))
+    | _, _ => none
+  | .neB a b => match eval cfg env a, eval cfg env b with
+    | some (.bytes x), some (.bytes y) => some (.bool (x != y))
+    | _, _ => none
+  | .or a b => match eval cfg env a, eval cfg env b with
+    | some x, some y => match truthy x, truthy y with
+      | some p, some q => some (.bool (p || q))
+      | _, _ => none
+    | _, _ => none
+  | .le a b => match eval cfg env a, eval cfg env b with
+    | some (.int x), some (.int y) => some (.bool (x ≤ y))
+    | _, _ => none
+  | .maxSize => some (.int cfg.maxSize)
+  | .isNone e => match eval cfg env e with
+    | some .none => some (.bool true)
+    | some _ => some (.bool false)
+    | none => none
+  | .startsWith e p => match eval cfg env e, eval cfg env p with
+    | some (.bytes x), some (.bytes y) => some (.bool (x.take y.length == y))
+    | _, _ => none
 
 /-- one socket call that either transfers or raises -/
 inductive Sys where
@@ -230,6 +275,22 @@ def dictPut (d : List (List Nat × Bytes)) (k : List Nat) (v : Bytes) : List (Li
   match d with
   | [] => [(k, v)]
   | (k', v') :: rest => if k' = k then (k, v) :: rest else (k', v') :: dictPut rest k v
+
+/-- struct.unpack for a big-endian format: the fields in order, or none when the length does not match (struct.error) -/
+def unpackFields : List Fld → Bytes → Option (List Val)
+  | [], [] => some []
+  | [], _ :: _ => none
+  | f :: fs, b =>
+    if b.length < fldSize f then none
+    else match unpackFields fs (b.drop (fldSize f)) with
+      | none => none
+      | some vs => some ((match f with
+          | .raw _ => Val.bytes (b.take (fldSize f))
+          | .uint _ => Val.int (fromBE (b.take (fldSize f)))) :: vs)
+
+def bindAll : List String → List Val → Env → Env
+  | t :: ts, v :: vs, env => bindAll ts vs (if t == "_" then env else (t, v) :: env)
+  | _, _, env => env
 
 def truth (cfg : Cfg) (env : Env) (c : Expr) : Option Bool :=
   match eval cfg env c with
@@ -393,6 +454,14 @@ def exec (cfg : Cfg) : Stmt → Nat → Option Val → Env → World → Res
   | .sockClose, _, _, env, w =>
     let w' := { w with log := w.log ++ [sockCloseMark] }
     if cfg.closeRaises sockCloseMark then .raise (.exc .osError false none) env w' else .normal env w'
+  | .unpackInto targets fmt e, _, _, env, w =>
+    match eval cfg env e with
+    | some (.bytes b) =>
+      match unpackFields fmt b with
+      | some vs => if vs.length = targets.length then .normal (bindAll targets vs env) w else .stuck
+      | none => .raise (.exc .valueError false none) env w       -- struct.error (not a Pyro error)
+    | _ => .stuck
+  | .unsupported _, _, _, _, _ => .stuck
 termination_by s fuel => (fuel, sizeOf s)
 
 /-- outcome of `receive_data` as the hand model reports it -/
